@@ -165,6 +165,10 @@ def run_path(spec, fnode, script):
       if name in raise_conds:
         ex.oblige(raise_conds[name], f'raises-only-if[{name}]')
         ex.post_raise_frame(env) if hasattr(ex, 'post_raise_frame') else None
+        # what holds when the function fails with this exception (e.g. what a generator had yielded before failing)
+        penv_r = Env(env)
+        for i, cl in enumerate((getattr(spec, 'ensures_on_raise', None) or {}).get(name, ())):
+          ex.oblige(ex.eval_spec(cl, penv_r), f'post-on-raise[{name}.{i}]')
       elif name in spec.raises_any or name in spec.raises_when:
         pass
       else:
